@@ -241,7 +241,10 @@ CapViol(s, e) == IF e.cap >= 0 /\ s.cap > 0 /\ e.grow = <<>> /\ e.cap # s.cap
 
 \* ---------------------------------------------------------------- one observed call
 Base(fmt) == IF fmt = "fasta" THEN "C01" ELSE "C02"
-Blame(fmt, s) == IF "takeover" \in s.ctx THEN "C09" ELSE IF "mixed" \in s.ctx THEN "C04" ELSE IF "seek" \in s.ctx THEN "C05" ELSE Base(fmt)
+\* which property fixes the result that is due: the one whose clause governs the context (interleaving, seek, plain
+\* reading); after a take-over (a policy installed after a refusal) C09's "without disturbing the stream" as well
+Blame(fmt, s) == IF "mixed" \in s.ctx THEN "C04" ELSE IF "seek" \in s.ctx THEN "C05" ELSE Base(fmt)
+Bl(fmt, s, w) == {<<Blame(fmt, s), w>>} \cup (IF "takeover" \in s.ctx THEN {<<"C09", w>>} ELSE {})
 
 \* greedy match of a batch to records after index lim, in order (limbo rule of C06)
 RECURSIVE LimboMatch(_, _, _)
@@ -258,12 +261,12 @@ JudgeRead(fmt, chain, s, e) ==
       fab == IF r.k = "rec" /\ ~Member(chain, r, j) THEN {<<"C06", "fabricated_record">>} ELSE {}
   IN
   \* a call that panics or hangs where the model knows the one result the call has to return has not returned it
-  CASE r.k \in {"panic", "hang"} -> [viol |-> {<<"C06", r.k>>} \cup (IF s.mode \in {"stream", "ended", "failed"} THEN {<<Blame(fmt, s), "no_result">>} ELSE {}),
+  CASE r.k \in {"panic", "hang"} -> [viol |-> {<<"C06", r.k>>} \cup (IF s.mode \in {"stream", "ended", "failed"} THEN Bl(fmt, s, "no_result") ELSE {}),
                                      s |-> [s EXCEPT !.mode = "lost"]]
     [] s.mode = "stream" /\ r.k = "rec" ->
          LET ok == el.okRec /\ Eq(r, el.rec, j)
              posbad == ok /\ e.op = "next" /\ e.pos # <<>> /\ el.coords /\ e.pos # <<el.line, el.byte>>
-         IN [viol |-> (IF ok THEN {} ELSE {<<Blame(fmt, s), "record_content">>} \cup fab \cup fault)
+         IN [viol |-> (IF ok THEN {} ELSE Bl(fmt, s, "record_content") \cup fab \cup fault)
                       \cup (IF posbad THEN {<<"C05", "position_of_returned_record">>} ELSE {})
                       \cup ViewsViol(fmt, r) \cup SerdeViol(r) \cup CrViol(e, r)
                       \cup (IF ok THEN WriteViol(fmt, el, r) ELSE {})
@@ -271,11 +274,11 @@ JudgeRead(fmt, chain, s, e) ==
              s |-> IF ok THEN [s EXCEPT !.cur = @ + 1, !.hwL = Max({@, Len(el.rec.lines) + 1}), !.nread = @ + 1]
                    ELSE [s EXCEPT !.mode = "lost"]]
     [] s.mode = "stream" /\ r.k = "none" ->
-         [viol |-> IF el.okEnd THEN {} ELSE {<<Blame(fmt, s), "end_of_input_too_early">>} \cup fault,
+         [viol |-> IF el.okEnd THEN {} ELSE Bl(fmt, s, "end_of_input_too_early") \cup fault,
           s |-> [s EXCEPT !.mode = IF el.okEnd THEN "ended" ELSE "lost"]]
     [] s.mode = "stream" /\ r.k \in FormatErr ->
          LET kok == KindIn(r, el.errs) IN
-         [viol |-> (IF kok THEN {} ELSE {<<Blame(fmt, s), "error_kind">>} \cup fault)
+         [viol |-> (IF kok THEN {} ELSE Bl(fmt, s, "error_kind") \cup fault)
                    \cup (IF kok /\ ~FieldsIn(r, el.errs) THEN {<<"C17", "error_fields">>} ELSE {})
                    \cup (IF kok /\ ~MsgOK(r) THEN {<<"C17", "error_message">>} ELSE {}) \cup ErrViol12(e, r),
           s |-> [s EXCEPT !.mode = IF kok THEN "failed" ELSE "lost"]]
@@ -283,7 +286,7 @@ JudgeRead(fmt, chain, s, e) ==
                                                                         !.lcause = IF s.mode = "stream" THEN r.k ELSE @]]
     [] s.mode \in {"ended", "failed"} ->
          IF r.k = "none" THEN [viol |-> {}, s |-> s]
-         ELSE [viol |-> {<<Blame(fmt, s), "result_after_end_or_error">>} \cup fab
+         ELSE [viol |-> Bl(fmt, s, "result_after_end_or_error") \cup fab
                         \cup (IF e.op = "iter" THEN {<<"C20", "owned_record_iterator_not_fused">>} ELSE {}),
                s |-> [s EXCEPT !.mode = "lost"]]
     [] s.mode = "limbo" ->
@@ -328,7 +331,7 @@ JudgeSet(fmt, chain, s, e) ==
              nx == IF allok /\ s.cur + kk <= N THEN chain[s.cur + kk] ELSE el
              posbad == allok /\ e.pos # <<>> /\ nx.coords /\ e.pos # <<nx.line, nx.byte>>
              nxl == IF allok /\ s.cur + kk <= N /\ nx.okRec THEN Len(nx.rec.lines) + 1 ELSE 0
-         IN [viol |-> (IF allok THEN {} ELSE {<<"C04", "batch_content">>} \cup fabset)
+         IN [viol |-> (IF allok THEN {} ELSE {<<"C04", "batch_content">>} \cup fabset \cup (IF "takeover" \in s.ctx THEN {<<"C09", "batch_content">>} ELSE {}))
                       \cup (IF allok /\ ~exactok THEN {<<"C04", "exact_count">>} ELSE {})
                       \cup (IF posbad THEN {<<"C05", "position_after_record_set">>} ELSE {})
                       \cup others \cup AllocViolSet(s, e, batch, nxl, allok /\ s.cur + kk <= N /\ nx.errs # {})
@@ -384,8 +387,12 @@ JudgeSeek(fmt, chain, s, e) ==
 JudgeSerde(fmt, chain, s, e) ==
   LET want == s.sets[e.slot] IN
   IF e.res.k # "ok" THEN [viol |-> {<<"C19", "record_set_roundtrip_panicked">>}, s |-> s]
-  ELSE [viol |-> IF Len(e.recs) = Len(want) /\ \A i \in 1..Len(want) : Eq(e.recs[i], want[i], FALSE)
-                 THEN {} ELSE {<<"C19", "record_set_roundtrip">>},
+  \* (with the views logged: a record of the deserialised set shows the same views as any other record; a view that is wrong
+  \* only after the round trip is a C19 matter)
+  ELSE [viol |-> (IF Len(e.recs) = Len(want) /\ \A i \in 1..Len(want) : Eq(e.recs[i], want[i], FALSE)
+                  THEN {} ELSE {<<"C19", "record_set_roundtrip">>})
+                 \cup (IF \E i \in 1..Len(e.recs) : ViewsViol(fmt, e.recs[i]) # {} THEN {<<"C19", "views_of_deserialised_record">>} ELSE {})
+                 \cup UNION {ViewsViol(fmt, e.recs[i]) : i \in 1..Len(e.recs)},
         s |-> s]
 
 \* RecordSet::shrink_buffer_to_fit: the records of the set (and of every other set) stay what they were (C04:
